@@ -1,25 +1,324 @@
 package main
 
 import (
+	"encoding/json"
+	"flag"
 	"fmt"
+	"os"
+	"path/filepath"
+	"sort"
+	"strings"
+
 	"golang.org/x/tools/go/packages"
 	"golang.org/x/tools/go/ssa"
 	"golang.org/x/tools/go/ssa/ssautil"
-	"os"
 )
 
-func main() {
-	cfg := &packages.Config{Mode: packages.LoadAllSyntax, Dir: "/repo", BuildFlags: []string{"-tags=verif"}}
-	pkgs, err := packages.Load(cfg, os.Args[1:]...)
-	if err != nil {
-		panic(err)
+type Loaded struct {
+	prog  *ssa.Program
+	pkgs  []*packages.Package
+	spkgs []*ssa.Package
+	db    *ContractDB
+	funcs map[string]*ssa.Function // by key
+}
+
+func repoDir() string {
+	if d := os.Getenv("GOVC_REPO"); d != "" {
+		return d
 	}
-	prog, spkgs := ssautil.AllPackages(pkgs, ssa.InstantiateGenerics)
+	return "/repo"
+}
+
+func load(pkgPaths []string) (*Loaded, error) {
+	cfg := &packages.Config{Mode: packages.LoadAllSyntax, Dir: repoDir(), BuildFlags: []string{"-tags=verif"},
+		Env: append(os.Environ(), "GOFLAGS=-mod=mod", "GOPROXY=off")}
+	pkgs, err := packages.Load(cfg, pkgPaths...)
+	if err != nil {
+		return nil, err
+	}
+	var errs []string
+	packages.Visit(pkgs, nil, func(p *packages.Package) {
+		for _, e := range p.Errors {
+			errs = append(errs, e.Error())
+		}
+	})
+	if len(errs) > 0 {
+		return nil, fmt.Errorf("package errors (the tree does not compile with -tags verif):\n%s", strings.Join(errs, "\n"))
+	}
+	prog, spkgs := ssautil.AllPackages(pkgs, ssa.InstantiateGenerics|ssa.GlobalDebug)
 	prog.Build()
-	for _, p := range spkgs {
-		if f := p.Func("varintLen"); f != nil {
-			f.WriteTo(os.Stdout)
+	for _, p := range prog.AllPackages() {
+		pkgByPath[p.Pkg.Path()] = p.Pkg
+	}
+	l := &Loaded{prog: prog, pkgs: pkgs, spkgs: spkgs, db: newDB(), funcs: map[string]*ssa.Function{}}
+	for _, p := range pkgs {
+		if len(p.GoFiles) == 0 {
+			continue
+		}
+		dir := filepath.Dir(p.GoFiles[0])
+		if err := l.db.loadDir(dir, p.PkgPath); err != nil {
+			return nil, err
 		}
 	}
-	fmt.Println("ok")
+	for fn := range ssautil.AllFunctions(prog) {
+		if fn.Pkg == nil && fn.Parent() == nil && fn.Origin() == nil {
+			continue
+		}
+		k := funcKey(fn)
+		if fn.Origin() != nil {
+			// keep the generic origin for verification (type parameters become opaque sorts)
+			continue
+		}
+		if _, ok := l.db.funcs[k]; ok {
+			l.funcs[k] = fn
+		}
+	}
+	return l, nil
+}
+
+func (l *Loaded) findFunc(name string) *ssa.Function {
+	for fn := range ssautil.AllFunctions(l.prog) {
+		if fn.String() == name || shortFn(fn) == name || (fn.Pkg != nil && fn.Name() == name && inPkgs(l.pkgs, fn.Pkg.Pkg.Path())) {
+			return fn
+		}
+	}
+	return nil
+}
+
+func inPkgs(ps []*packages.Package, path string) bool {
+	for _, p := range ps {
+		if p.PkgPath == path {
+			return true
+		}
+	}
+	return false
+}
+
+func hasProp(fc *FuncContract, prop string) bool {
+	if prop == "" {
+		return true
+	}
+	for _, p := range fc.Props {
+		if p == prop {
+			return true
+		}
+	}
+	return false
+}
+
+func main() {
+	if len(os.Args) < 2 {
+		fmt.Fprintln(os.Stderr, "usage: govc verify|list|check ...")
+		os.Exit(2)
+	}
+	defer cleanupWork()
+	switch os.Args[1] {
+	case "verify":
+		os.Exit(cmdVerify(os.Args[2:]))
+	case "list":
+		os.Exit(cmdList(os.Args[2:]))
+	case "check":
+		code := cmdCheck(os.Args[2:])
+		cleanupWork()
+		os.Exit(code)
+	default:
+		fmt.Fprintln(os.Stderr, "unknown command", os.Args[1])
+		os.Exit(2)
+	}
+}
+
+func splitPkgs(s string) []string {
+	var out []string
+	for _, p := range strings.Split(s, ",") {
+		p = strings.TrimSpace(p)
+		if p == "" {
+			continue
+		}
+		if !strings.Contains(p, "github.com/") && !strings.HasPrefix(p, ".") {
+			p = "github.com/ipfs/boxo/" + p
+		}
+		out = append(out, p)
+	}
+	return out
+}
+
+// verifyProp generates and discharges everything tagged with prop.
+func verifyProp(l *Loaded, prop, only string, timeoutS int, all bool, dump string) []*FuncReport {
+	var reps []*FuncReport
+	var keys []string
+	for _, k := range l.db.order {
+		fc := l.db.funcs[k]
+		if !fc.Verify || !hasProp(fc, prop) {
+			continue
+		}
+		if only != "" && !strings.Contains(k, only) {
+			continue
+		}
+		keys = append(keys, k)
+	}
+	var anyFn *ssa.Function
+	for _, k := range keys {
+		fc := l.db.funcs[k]
+		fn := l.funcs[k]
+		if fn == nil {
+			reps = append(reps, &FuncReport{Func: k, Key: k, Error: "function under contract not found in /repo (renamed or removed?)"})
+			continue
+		}
+		anyFn = fn
+		reps = append(reps, generate(l.prog, l.db, fn, fc))
+	}
+	if only == "" && prop != "" {
+		has := false
+		for _, ax := range l.db.axioms {
+			for _, p := range ax.Props {
+				if ax.Lemma && p == prop {
+					has = true
+				}
+			}
+		}
+		if has {
+			if anyFn == nil {
+				for _, fn := range l.funcs {
+					anyFn = fn
+					break
+				}
+			}
+			if anyFn != nil {
+				reps = append(reps, generateLemmas(l.prog, l.db, prop, anyFn))
+			}
+		}
+	}
+	if dump != "" {
+		os.MkdirAll(dump, 0o755)
+		for _, r := range reps {
+			for _, o := range r.obls {
+				if o.Kind == "error" {
+					continue
+				}
+				os.WriteFile(filepath.Join(dump, sanitize(o.Name)+".smt2"), []byte(buildQuery(r.ctx, o)), 0o644)
+			}
+		}
+	}
+	discharge(reps, timeoutS, all)
+	return reps
+}
+
+func cmdVerify(args []string) int {
+	fs := flag.NewFlagSet("verify", flag.ExitOnError)
+	pk := fs.String("pkgs", "", "comma separated package paths (relative to github.com/ipfs/boxo)")
+	prop := fs.String("prop", "", "property tag")
+	only := fs.String("func", "", "substring of function key")
+	timeout := fs.Int("timeout", 10, "per obligation timeout (s)")
+	all := fs.Bool("all", false, "run all solvers to completion and compare")
+	dump := fs.String("dump", "", "directory to dump queries")
+	jsonOut := fs.String("json", "", "write report json")
+	verbose := fs.Bool("v", false, "verbose")
+	mode := fs.String("lemma-arith", "int", "arith mode for lemmas")
+	fs.Parse(args)
+	lemmaMode = *mode
+	l, err := load(splitPkgs(*pk))
+	if err != nil {
+		fmt.Fprintln(os.Stderr, "load:", err)
+		return 2
+	}
+	reps := verifyProp(l, *prop, *only, *timeout, *all, *dump)
+	bad := printReports(reps, *verbose)
+	if *jsonOut != "" {
+		b, _ := json.MarshalIndent(reps, "", " ")
+		os.WriteFile(*jsonOut, b, 0o644)
+	}
+	if bad > 0 {
+		return 1
+	}
+	return 0
+}
+
+func printReports(reps []*FuncReport, verbose bool) int {
+	bad := 0
+	for _, r := range reps {
+		fmt.Printf("== %s [%s] gen %dms\n", r.Func, r.Arith, r.GenMs)
+		if r.Error != "" {
+			fmt.Printf("   ERROR: %s\n", r.Error)
+			bad++
+		}
+		for _, o := range r.Obligations {
+			mark := "ok  "
+			switch o.Status {
+			case "discharged", "covered":
+			case "cover-unknown":
+				mark = "?   "
+			default:
+				mark = "FAIL"
+				bad++
+			}
+			fmt.Printf("   %s %-12s %-70s %s %dms %s\n", mark, o.Kind, o.Name, o.Backend, o.Ms, o.Solver)
+			if mark == "FAIL" || verbose {
+				if o.Detail != "" {
+					fmt.Printf("        %s\n", strings.ReplaceAll(o.Detail, "\n", "\n        "))
+				}
+				if o.Model != "" {
+					fmt.Printf("        model: %s\n", strings.ReplaceAll(firstLines(o.Model, 20), "\n", "\n        "))
+				}
+			}
+		}
+		if verbose {
+			for _, n := range r.Notes {
+				fmt.Printf("   note: %s\n", n)
+			}
+		}
+	}
+	return bad
+}
+
+func cmdList(args []string) int {
+	fs := flag.NewFlagSet("list", flag.ExitOnError)
+	pk := fs.String("pkgs", "", "packages")
+	name := fs.String("func", "", "function name")
+	fs.Parse(args)
+	l, err := load(splitPkgs(*pk))
+	if err != nil {
+		fmt.Fprintln(os.Stderr, "load:", err)
+		return 2
+	}
+	var fns []*ssa.Function
+	for fn := range ssautil.AllFunctions(l.prog) {
+		if fn.Pkg == nil && fn.Parent() == nil {
+			continue
+		}
+		p := pkgPathOf(fn)
+		if !inPkgs(l.pkgs, p) {
+			continue
+		}
+		if *name != "" && !strings.Contains(fn.String(), *name) {
+			continue
+		}
+		fns = append(fns, fn)
+	}
+	sort.Slice(fns, func(i, j int) bool { return fns[i].String() < fns[j].String() })
+	for _, fn := range fns {
+		if *name == "" {
+			fmt.Println(funcKey(fn))
+			continue
+		}
+		c := newCtx(l.prog, l.db, fn, nil)
+		f := c.newFrame(fn, nil)
+		fmt.Printf("### %s   key=%s\n", fn.String(), funcKey(fn))
+		for h, ord := range f.headers {
+			fmt.Printf("  loop %d: header block %d (%s) at %s\n", ord, h.Index, h.Comment, f.pos(h.Instrs[len(h.Instrs)-1]))
+		}
+		fn.WriteTo(os.Stdout)
+		for _, b := range fn.Blocks {
+			for _, in := range b.Instrs {
+				if m := f.siteOrd[in]; len(m) > 0 {
+					var ss []string
+					for s, k := range m {
+						ss = append(ss, fmt.Sprintf("%s#%d", s, k))
+					}
+					sort.Strings(ss)
+					fmt.Printf("  site b%d %s: %s\n", b.Index, f.pos(in), strings.Join(ss, " "))
+				}
+			}
+		}
+	}
+	return 0
 }
